@@ -150,7 +150,7 @@ def fixcap(c):
 class Prop:
     pid = 'C04'
     props_file = 'Props/C04.v'
-    required_theorems = []
+    required_theorems = ['frames_within_limit', 'decode_encode_routes']
     extra_targets = ['Model/WireEnc.vo']
     correspondence_name = 'Model/WireEnc.v encode_to vs rustybgp_packet::bgp::PeerCodec::encode_to (harness/hx-enc), debug and release'
     rule = 'TBD'
